@@ -162,12 +162,21 @@ vecit_BaseKillPlugin_KillCandidate vec_BaseKillPlugin_KillCandidate__insert(vec_
 }
 void vec_BaseKillPlugin_KillCandidate__clear(vec_BaseKillPlugin_KillCandidate *v)
 { v->n = 0; if (g_rfh_mode) { g_a_set = 0; g_b_set = 0; } }
+/* every candidate taken off the stack that can be attacked IS attacked: a populated cgroup that is not descended into (no
+   recursive targeting, or memory.oom.group=1, or no children) gets exactly one kill attempt - or its prekill hook is waited for -
+   before the next candidate is looked at (C03: "falls back to the next-best candidate ... until one kill succeeds or candidates
+   run out"; nothing is passed over silently) */
+_Bool g_pending; uint64_t g_pend_att;
+#define ATTACKABLE(c) (POPULATED(c) && !(g_self->recursive_ && !OOMGROUP(c) && HAS_CHILDREN(c)))
+#define PENDING_SERVED (!g_pending || g_attempts == g_pend_att + 1)
 BaseKillPlugin_KillCandidate vec_BaseKillPlugin_KillCandidate__back(vec_BaseKillPlugin_KillCandidate v)
 {
   __CPROVER_assert(v.n > 0, "UB: vector::back() on empty vector");
+  __CPROVER_assert(PENDING_SERVED, "the previous candidate could be attacked but was passed over"); /*@C03,C01*/
   BaseKillPlugin_KillCandidate k = nondet_kc();
   __CPROVER_assume(KC_OK(k) && k.peers.n <= VEC_MAX);     /* container abstraction: some element that was pushed */
   g_cur_kc = k;
+  g_pending = ATTACKABLE(k.cgroupCtx); g_pend_att = g_attempts;
   return k;
 }
 BaseKillPlugin_KillCandidate g_kc_slot;
@@ -247,16 +256,18 @@ BaseKillPlugin_SerializedKillCandidate *vecit_BaseKillPlugin_SerializedKillCandi
 #define KILLRESULT_OK(r) ((r) == BaseKillPlugin_KillResult__SUCCESS || (r) == BaseKillPlugin_KillResult__FAILED || (r) == BaseKillPlugin_KillResult__DEFER)
 #define DFS_ASSIGNS self->prekillHookState_, g_attempts, g_successes, g_last_target, g_last_nr, g_last_ok, g_attempt_uuid, g_passed_uuid, g_passed_dry, \
   g_kills_stat, g_kmsg_records, g_dumps, g_dump_nr, g_dump_dry, g_live_inv, g_inv_in_state, g_hooks_fired, g_hook_fired_for, g_hook_path, g_hook_has_id, g_hook_id, g_past_timeout, \
-  g_batch_left, g_batch_root, g_batch_is_children, g_cur_kc, g_pushes, g_rank_vid, g_rank_n, g_rank_reversed, g_rank_allowed, g_kc_slot, g_last_now, g_cur, g_skc_slot, g_first_target_set, g_first_target, g_ser_i, g_a_set, g_pos_a, g_b_set, g_pos_b
+  g_batch_left, g_batch_root, g_batch_is_children, g_cur_kc, g_pushes, g_rank_vid, g_rank_n, g_rank_reversed, g_rank_allowed, g_kc_slot, g_last_now, g_cur, g_skc_slot, g_first_target_set, g_first_target, g_ser_i, g_a_set, g_pos_a, g_b_set, g_pos_b, g_pending, g_pend_att
 CgroupContext g_cur;
 _Bool BaseKillPlugin__pastPrekillHookTimeout__stub_note;
 #define CONTRACT_resumeTrying \
   __CPROVER_requires(self == g_self && !self->prekillHookState_.has && g_live_inv == 0 && !g_inv_in_state && g_successes == 0 && ghost_exc == 0 && \
-                     nextBestOptionStack.n <= VEC_MAX && TP_VALID(g_last_now)) \
+                     nextBestOptionStack.n <= VEC_MAX && TP_VALID(g_last_now) && !g_pending && g_attempts <= (1UL << 40)) \
   /* called from resumeFromPrekillHook: the stack handed over is the saved one, order preserved */ /*@C03*/ \
   __CPROVER_requires(!g_rfh_mode || RFH_ORDER_OK(nextBestOptionStack.n)) \
   __CPROVER_assigns(DFS_ASSIGNS) \
   __CPROVER_ensures(KILLRESULT_OK(__CPROVER_return_value)) \
+  /* the last candidate looked at was attacked too (or its hook is being waited for) */ /*@C03,C01*/ \
+  __CPROVER_ensures(PENDING_SERVED || self->prekillHookState_.has) \
   /* SUCCESS iff the last attempt signalled something; nothing is attacked after it */ /*@C01,C03,C17*/ \
   __CPROVER_ensures((__CPROVER_return_value == BaseKillPlugin_KillResult__SUCCESS) == (g_successes == 1) && g_successes <= 1) \
   /* DEFER iff a fired hook is still running: it is stored, it is the only live invocation, and the stored victim IS the cgroup the hook was fired for */ /*@C06,C07,C01*/ \
@@ -276,7 +287,7 @@ BaseKillPlugin_KillResult BaseKillPlugin__resumeTryingToKillSomething(BaseKillPl
   __CPROVER_assigns(nextBestOptionStack, firstKillCandidate, hasTriedToKillSomethingAlready, DFS_ASSIGNS) \
   __CPROVER_loop_invariant(nextBestOptionStack.n <= VEC_MAX && !self->prekillHookState_.has && g_live_inv == 0 && !g_inv_in_state && g_successes == 0) \
   __CPROVER_loop_invariant(__CPROVER_loop_entry(g_first_target_set) ? (g_first_target_set && g_first_target == __CPROVER_loop_entry(g_first_target)) : 1) \
-  __CPROVER_loop_invariant(TP_VALID(g_last_now))
+  __CPROVER_loop_invariant(TP_VALID(g_last_now) && PENDING_SERVED)
 #define LOOPC_BaseKillPlugin__resumeTryingToKillSomething_2 \
   __CPROVER_assigns(__begin4, nextBestOptionStack, g_batch_left, g_pushes) \
   __CPROVER_loop_invariant(__begin4.i <= __begin4.n && __end4.i == __begin4.n && __begin4.n == g_rank_n && __begin4.vid == g_rank_vid && \
@@ -295,7 +306,7 @@ BaseKillPlugin_KillResult BaseKillPlugin__resumeTryingToKillSomething(BaseKillPl
 /* ---- tryToKillSomething: rank the matched cgroups, then walk ---- */
 #define CONTRACT_tryToKillSomething \
   __CPROVER_requires(self == g_self && !self->prekillHookState_.has && g_live_inv == 0 && !g_inv_in_state && g_successes == 0 && ghost_exc == 0 && \
-                     initialCgroups.n <= VEC_MAX && TP_VALID(g_last_now) && g_rank_allowed && !g_batch_is_children) \
+                     initialCgroups.n <= VEC_MAX && TP_VALID(g_last_now) && g_rank_allowed && !g_batch_is_children && !g_pending && g_attempts <= (1UL << 40)) \
   __CPROVER_assigns(DFS_ASSIGNS) \
   __CPROVER_ensures(KILLRESULT_OK(__CPROVER_return_value)) \
   __CPROVER_ensures((__CPROVER_return_value == BaseKillPlugin_KillResult__SUCCESS) == (g_successes == 1) && g_successes <= 1) \
@@ -357,7 +368,7 @@ PluginRet BaseKillPlugin__run(BaseKillPlugin *self, OomdContext ctx)
 vec_CgroupContext OomdContext__addToCacheAndGet__uset_CgroupPath(OomdContext c, uset_CgroupPath set)
 { vec_CgroupContext v = nondet_vec_cg(); __CPROVER_assume(v.n <= VEC_MAX); g_vec_n0 = v.n; g_rank_allowed = 1; g_batch_is_children = 0; return v; }   /* the matched cgroups: ALLOWED by definition */
 
-#define HAVOC_DFS() do { g_rfh_mode = 0; HAVOC(g_attempts); HAVOC(g_successes); HAVOC(g_last_target); HAVOC(g_last_nr); HAVOC(g_kills_stat); HAVOC(g_kmsg_records); \
+#define HAVOC_DFS() do { g_rfh_mode = 0; g_pending = 0; HAVOC(g_attempts); HAVOC(g_successes); HAVOC(g_last_target); HAVOC(g_last_nr); HAVOC(g_kills_stat); HAVOC(g_kmsg_records); \
   HAVOC(g_dumps); HAVOC(g_live_inv); HAVOC(g_inv_in_state); HAVOC(g_hooks_fired); HAVOC(g_hook_fired_for); HAVOC(g_batch_left); HAVOC(g_batch_root); \
   HAVOC(g_batch_is_children); HAVOC(g_rank_vid); HAVOC(g_rank_n); HAVOC(g_rank_reversed); HAVOC(g_rank_allowed); HAVOC(g_last_now); HAVOC(g_actx); \
   HAVOC(g_invoking); HAVOC(g_pause_calls); HAVOC(ghost_exc); HAVOC(g_first_target_set); } while (0)
